@@ -2,6 +2,7 @@ import Cirbo.Proofs.Func
 import Cirbo.Proofs.FuncSym
 import Cirbo.Proofs.FuncIdx
 import Cirbo.Proofs.FuncDefine
+import Cirbo.Proofs.FuncInt
 /-!
 # C12 — All function representations answer every protocol query alike and correctly
 
@@ -24,7 +25,8 @@ lookup at the canonical index) and `PyFunction` (ev = the callable).  The querie
 -- OBLIGATION: c12_truth_table_order
 -- OBLIGATION: c12_truth_table_equal_to_input
 -- OBLIGATION: c12_define
--- PARTIAL: not yet proved (modelled and compared with the code exhaustively for n<=2,m<=2 and sampled beyond): the integer wrappers' bit order (`bin()` digit strings). find_negations_to_make_symmetric: that the returned vector is the first in enumeration order is by correspondence (the theorem says it works, and that None means none works).
+-- OBLIGATION: c12_int_wrappers_bit_order
+-- PARTIAL: every clause is proved on the model. find_negations_to_make_symmetric: that the returned vector is the first in enumeration order is by correspondence (the theorem says it works, and that None means none works). canonical_index_to_input with size 0 returns all digits (Python's `[-0:]`), outside the wrappers' use (out_len >= 1 in the theorem). The tie between the model and the three Python representations is by correspondence (exhaustive for small shapes).
 -/
 namespace Cirbo
 open FRep
@@ -154,6 +156,26 @@ theorem c12_define (model : List (List (Option Bool))) (defn : List ((List Bool 
 example : FRep.defineTable [[some false, none]] [(([false], 0), true), (([true], 0), true)] = [[some false, some true]] := by
   decide
 
+/-- **integer-function wrappers honour the stated bit order**: `from_int_unary_func` /
+`from_int_binary_func` return `out_len ≥ 1` bits which, read big-endian when `big_endian` and
+little-endian otherwise, are `f(operands read in the same order) mod 2^out_len`; the binary wrapper's
+operands are the two halves of the argument vector. (`canonical_index_to_input` goes through Python's
+`bin()` digit string: `Nat.toDigits 2`.) -/
+theorem c12_int_wrappers_bit_order (inLen outLen : Nat) (be : Bool) (args : List Bool) (ho : 1 ≤ outLen) :
+    (∀ f : Nat → Nat,
+      ((FRep.fromIntUnary f inLen outLen be).ev args).length = outLen ∧
+      FRep.canonicalIndex (if be then (FRep.fromIntUnary f inLen outLen be).ev args
+          else ((FRep.fromIntUnary f inLen outLen be).ev args).reverse) =
+        f (FRep.canonicalIndex (if be then args else args.reverse)) % 2 ^ outLen) ∧
+    (∀ f : Nat → Nat → Nat,
+      ((FRep.fromIntBinary f inLen outLen be).ev args).length = outLen ∧
+      FRep.canonicalIndex (if be then (FRep.fromIntBinary f inLen outLen be).ev args
+          else ((FRep.fromIntBinary f inLen outLen be).ev args).reverse) =
+        f (FRep.canonicalIndex (if be then args.take inLen else (args.take inLen).reverse))
+          (FRep.canonicalIndex (if be then args.drop inLen else (args.drop inLen).reverse)) % 2 ^ outLen) :=
+  ⟨fun f => FRep.fromIntUnary_spec f inLen outLen be args ho, fun f => FRep.fromIntBinary_spec f inLen outLen be args ho⟩
+
+#print axioms c12_int_wrappers_bit_order
 #print axioms c12_define
 
 end Cirbo
